@@ -18,6 +18,8 @@ pub const NKEYS: usize = 6;
 #[derive(Clone, Debug, Serialize, Deserialize)]
 pub enum Op {
     Put { k: u8, kind: u8, len: u16, seed: u8 },
+    /// hand in again the value most recently handed in for k (what a replication retry does)
+    PutAgain { k: u8 },
     Get { k: u8 },
     List,
     Remove { k: u8 },
@@ -59,13 +61,30 @@ fn op_strategy() -> impl Strategy<Value = Op> {
     prop_oneof![
         30 => (k.clone(), 0u8..4, prop_oneof![8 => 1u16..64, 3 => 64u16..2048, 1 => Just(60000u16)], 0u8..4)
             .prop_map(|(k, kind, len, seed)| Op::Put { k, kind, len, seed }),
+        6 => k.clone().prop_map(|k| Op::PutAgain { k }),
         15 => k.clone().prop_map(|k| Op::Get { k }),
         3 => Just(Op::List),
         12 => k.clone().prop_map(|k| Op::Remove { k }),
         15 => Just(Op::Run),
         18 => any::<u16>().prop_map(|i| Op::Ack { i }),
-        1 => k.clone().prop_map(|k| Op::Block { k }),
-        1 => k.prop_map(|k| Op::Unblock { k }),
+        3 => k.clone().prop_map(|k| Op::Block { k }),
+        3 => k.prop_map(|k| Op::Unblock { k }),
+    ]
+}
+
+/// Mostly single ops; sometimes a whole write-fault episode for one key (the write fails, the failure
+/// is reported and handled, the path becomes free, the value is handed in again), with random ops of
+/// other kinds free to land in between through the surrounding segments.
+fn segment_strategy() -> impl Strategy<Value = Vec<Op>> {
+    prop_oneof![
+        24 => op_strategy().prop_map(|o| vec![o]),
+        1 => (0u8..NKEYS as u8, 0u8..4, 1u16..64, 0u8..4, any::<bool>(), 0usize..4).prop_map(|(k, kind, len, seed, same, acks)| {
+            let mut v = vec![Op::Block { k }, Op::Put { k, kind, len, seed }, Op::Run, Op::Run];
+            v.extend(std::iter::repeat(Op::Ack { i: 0 }).take(acks + 1));
+            v.push(Op::Unblock { k });
+            v.push(if same { Op::PutAgain { k } } else { Op::Put { k, kind, len: len + 1, seed } });
+            v
+        }),
     ]
 }
 
@@ -73,10 +92,10 @@ pub fn case_strategy() -> BoxedStrategy<Case> {
     (
         0u8..4,
         prop_oneof![Just(1u8), Just(2u8), Just(3u8), Just(25u8)],
-        proptest::collection::vec(op_strategy(), 0..vh_core::depth(40, 140)),
+        proptest::collection::vec(segment_strategy(), 0..vh_core::depth(40, 140)),
         proptest::collection::vec(any::<u16>(), 0..8),
     )
-        .prop_map(|(node, cache, ops, settle_order)| Case { node, cache, ops, settle_order })
+        .prop_map(|(node, cache, segs, settle_order)| Case { node, cache, ops: segs.into_iter().flatten().collect(), settle_order })
         .boxed()
 }
 
@@ -122,6 +141,7 @@ pub fn check(case: &Case, ctx: &mut Ctx) {
     let (mut overwrite, mut remove_acked, mut ack_reordered, mut ack_delayed, mut disk_read) =
         (false, false, false, false, false);
     let mut inflight_remove = false;
+    let (mut put_again, mut fault_resolved) = (false, false);
     // accepted puts of a key whose completion notification has not been delivered yet
     let mut unacked = vec![0i32; NKEYS];
     // the key was removed while a write of the same key was still in flight
@@ -135,10 +155,28 @@ pub fn check(case: &Case, ctx: &mut Ctx) {
 
     for (idx, op) in case.ops.iter().enumerate() {
         match op {
-            Op::Put { k, kind, len, seed } => {
-                let ki = *k as usize % NKEYS;
-                let v = make_value(*kind, *len as usize, (*seed as u32) << 8 | *k as u32);
+            Op::Put { .. } | Op::PutAgain { .. } => {
+                let (ki, v) = match op {
+                    Op::Put { k, kind, len, seed } => (*k as usize % NKEYS, make_value(*kind, *len as usize, (*seed as u32) << 8 | *k as u32)),
+                    Op::PutAgain { k } => {
+                        let ki = *k as usize % NKEYS;
+                        match handed[ki].last() {
+                            Some(v) => (ki, v.clone()),
+                            None => continue,
+                        }
+                    }
+                    _ => unreachable!(),
+                };
+                if matches!(op, Op::PutAgain { .. }) {
+                    put_again = true;
+                }
                 handed[ki].push(v.clone());
+                // an injected write fault is over once the path is free again and every earlier write of
+                // the key has reported (stored or failed+removed): from here the key is judged in full
+                if tainted[ki] && !blocked[ki] && unacked[ki] == 0 {
+                    tainted[ki] = false;
+                    fault_resolved = true;
+                }
                 if last[ki] != Last::Nothing {
                     overwrite = true;
                 }
@@ -352,6 +390,8 @@ pub fn check(case: &Case, ctx: &mut Ctx) {
     ctx.label_if(ack_delayed, "ack_delayed");
     ctx.label_if(disk_read, "cache_miss_disk_read");
     ctx.label_if(tainted.iter().any(|t| *t), "write_fault_injected");
+    ctx.label_if(fault_resolved, "write_after_resolved_fault");
+    ctx.label_if(put_again, "same_value_handed_in_again");
     ctx.nontrivial_if((overwrite || remove_acked) && (ack_reordered || ack_delayed));
     drop(sim);
 }
@@ -361,7 +401,7 @@ pub fn run(cfg: RunCfg) {
     rep.rule = "C01: histories of put/overwrite/remove/get/list over 6 keys against the real SwarmDriver+NodeRecordStore (cmd.rs arms), completion notifications buffered and delivered in generated order/delay.".into();
     rep.assumptions = vec![
         "single-threaded stepping: same-key background tasks run FIFO (the statement excludes same-key reordering); different-key completion order is permuted through the notification order".into(),
-        "keys whose write was made to fail by the harness (directory in place of the file) are only checked for 'reads return bytes handed in for that key'".into(),
+        "keys whose write was made to fail by the harness (directory in place of the file) are only checked for 'reads return bytes handed in for that key' until the fault is over (path free again, every earlier write of the key reported); writes accepted after that are judged in full".into(),
         "remove is only issued for keys the store currently lists or has an unacknowledged write for (as prune / clean-up / the failed-write path do)".into(),
     ];
     vh_core::section!(
